@@ -200,3 +200,19 @@ def package_uses_locks_or_threads() -> list[str]:
                 if pat.search(f.read()):
                     hits.append(name)
     return hits
+
+
+def package_makes_threads() -> bool:
+    """Does the package's source mention threads, pools, timers or queues of its own?  (On the
+    unchanged tree: no.)  Checks whose workload is a plain sequence of library calls in the main
+    thread run that whole sequence as ONE simulated caller when it does, so that the library's
+    own threads are scheduled by the simulator there too."""
+    import re
+
+    pat = re.compile(r"(\bthreading\b|\bconcurrent\.futures\b|\bfrom\s+concurrent\b|\bimport\s+queue\b|\bfrom\s+queue\b|\bThread\s*\()")
+    for name in sorted(os.listdir(PKG_DIR)):
+        if name.endswith(".py"):
+            with open(os.path.join(PKG_DIR, name), encoding="utf-8") as f:
+                if pat.search(f.read()):
+                    return True
+    return False
